@@ -1723,57 +1723,8 @@ def gen_addr(ctx):
 
 # ------------------------------------------------------------------ known findings (address level)
 # The seven findings of the first round (C10-XMR-INTEG-LEN, C10-P2WPKH-LEN, C10-ALGO-NONCANON, C10-FIL-NONCANON,
-# C10-NANO-PADBITS, C10-BYRON-TRAILING, C10-BYRON-TYPEERROR) are repaired in /repo and recorded as fixed; the models
+# C10-NANO-PADBITS, C10-BYRON-TRAILING, C10-BYRON-TYPEERROR) and C10-BYRON-CBOR-LAX of the second are repaired in /repo and recorded as fixed; the models
 # follow the repaired code, so their streams are ordinary correspondence cases now and need no predicate.
-
-def _byron_parts(s):
-    """(outer list, payload list) of a Byron address text read with the harness's CBOR reader, or None"""
-    raw = a_b58dec(s)
-    try:
-        outer, n = cb_parse(raw)
-        if n != len(raw) or not isinstance(outer, list) or len(outer) != 2 or not isinstance(outer[0], CbTag):
-            return None
-        pl, n2 = cb_parse(outer[0].value)
-        if n2 != len(outer[0].value) or not isinstance(pl, list) or len(pl) != 3 or not isinstance(pl[1], dict):
-            return None
-        return outer, pl
-    except Exception:  # noqa
-        return None
-
-
-def match_byron_cbor_lax(fn, args, record):
-    """AdaByronAddrDecoder accepts an address whose type field is the CBOR simple value false / true (a bool is an int
-    for isinstance), or whose attribute 1 is CBOR null or a byte string FOLLOWED by more bytes (cbor2.loads stops after
-    the first item)."""
-    if fn != "addr_ada_byron":
-        return False
-    parts = _byron_parts(args[0])
-    if parts is None:
-        return False
-    _outer, pl = parts
-    lax = isinstance(pl[2], CbSimple) and pl[2].n in (20, 21)
-    if 1 in pl[1] and isinstance(pl[1][1], bytes):
-        try:
-            v, n = cb_parse(pl[1][1])
-            lax = lax or (isinstance(v, bytes) and n != len(pl[1][1])) or v == CbSimple(22)
-        except ValueError:
-            pass
-    if record.get("kind") == "divergence":
-        return lax and record.get("model") == {"err": "ValueError"} and "ok" in record.get("impl", {})
-    return lax and record.get("kind") == "direct"
-
-
-def match_byron_cbor_lax_replay():
-    rh = bytes(range(28))
-    out = []
-    for what, pl in (("type = false", cb_array([cb_bytes(rh), cb_map([]), b"\xf4"])),
-                     ("attribute 1 = null", cb_array([cb_bytes(rh), cb_map([(cb_uint(1), cb_bytes(b"\xf6"))]), cb_uint(0)])),
-                     ("attribute 1 = h'4101' + 00", cb_array([cb_bytes(rh), cb_map([(cb_uint(1), cb_bytes(b"\x41\x01\x00"))]), cb_uint(0)]))):
-        s = a_byron(pl)
-        if impl_call(_bu.AdaByronAddrDecoder.DecodeAddr, s)[0] == "ok":
-            out.append("%s: %s" % (what, s))
-    return "AdaByronAddrDecoder.DecodeAddr accepts " + "; ".join(out) if out else None
-
 
 def generate(ctx):
     import time
